@@ -209,7 +209,7 @@ def main():
                         continue
                     if f['flags'] & fl['Function.F_getter'] or f['flags'] & fl['Function.F_setter']:
                         fld = [x for x in c['fields'] + [{'name': 'state_' + cls, 'kind': 'i64', 'src': 'long long'}] if simple in ('get_' + x['name'], 'set_' + x['name'])]
-                        if not fld and re.match(r'[gs]et_s?buf_', simple):
+                        if not fld and re.match(r'[gs]et_(s?buf|cell)_', simple):
                             continue              # the scratch buffers of the instrumentation (public, so exported under -promiscuous)
                         if not fld:
                             unmapped.append(f['scoped_name'])
@@ -246,6 +246,24 @@ def main():
                         tests.append('{ %s D(7); %s *bp = &D; %s *rw = %s(bp); %s *rd = static_cast<%s *>(bp); check("%s", "downcast to %s", show((long long)((char *)rw - (char *)bp)), show((long long)((char *)rd - (char *)bp)), "", "", "", ""); }'
                                      % (der, cls, der, w['name'], der, der, w['name'], der))
                         ncalls += 1
+                        continue
+                    if c['index'] and simple in ('operator []', 'operator []=') and has_this:
+                        cells = lambda o: ' + '.join('show(%s.cell_%s[%d])' % (o, cls, i) for i in range(4))
+                        this_const = 'const' in (tyname(prm[0]['type']) or '')
+                        for j, (ix, v) in enumerate([(0, '11'), (3, '-2'), (2, '2147483647')]):
+                            if simple == 'operator []=' and dbt == ['int', 'int']:
+                                # the synthesized item assignment: exactly  obj[index] = value
+                                wc, dc, what = '%s(&A, %d, %s); std::string rw = "void";' % (w['name'], ix, v), 'B[%d] = %s; std::string rd = "void";' % (ix, v), 'item assignment'
+                            elif simple == 'operator []' and dbt == ['int'] and this_const:
+                                wc, dc, what = 'std::string rw = show(%s(&A, %d));' % (w['name'], ix), 'std::string rd = show(((const %s &)B)[%d]);' % (cls, ix), 'index (const)'
+                            elif simple == 'operator []' and dbt == ['int']:
+                                wc, dc, what = '%s(&A, %d); std::string rw = "void";' % (w['name'], ix), 'B[%d]; std::string rd = "void";' % ix, 'index (non-const)'
+                            else:
+                                unmapped.append('%s(%s)' % (f['scoped_name'], ', '.join(dbt)))
+                                break
+                            tests.append('{ %s A(7); %s B(7); size_t l0 = LOG.size(); %s std::string lw = joinlog(l0); l0 = LOG.size(); %s std::string ld = joinlog(l0); '
+                                         'check("%s", "%s #%d", rw, rd, lw, ld, %s, %s); }' % (cls, cls, wc, dc, w['name'], what, j, cells('A'), cells('B')))
+                            ncalls += 1
                         continue
                     cands = [m for m in c['methods'] if m['name'] == simple and len(m['params']) >= len(rest) and [q['db'] for q in m['params'][:len(rest)]] == dbt
                              and all(q['default'] for q in m['params'][len(rest):]) and bool(m.get('static')) != has_this]
@@ -306,8 +324,8 @@ def main():
     ck.cov['rule'] = ('instrumented libraries of 1-3 classes (single/multiple/virtual public inheritance, static/const/virtual methods, overload sets, trailing defaults, operators, data members of '
                       'every scalar kind, a namespace function, a typedef\'d template instantiation) x option sets {-c -fnames} x {-string} x {-promiscuous}: the generated file is compiled '
                       '(ASan+UBSan) with the library and a driver; every wrapper of every default-argument variant is called three times with boundary values of every integer width, floats, bool, '
-                      'enum, C strings / std::string, object pointers/references/values and compared with the direct C++ call: return value, trace log, states of this and of argument objects; '
-                      'constructors, copy constructors, getters/setters, upcasts/downcasts by pointer offset. Non-trivial = library whose every call agreed')
+                      'enum, C strings / std::string, object pointers/references/values (classes with their own copy and move constructors, the move marking its source) and compared with the direct C++ call: return value, trace log, states of this and of argument objects; '
+                      'constructors, copy constructors, getters/setters, operator [] (const, non-const) and the synthesized item assignment, upcasts/downcasts by pointer offset. Non-trivial = library whose every call agreed')
     ck.assumptions += ['the -python back-end and -true-names are not executed here (C03 compiles them); only wrappers reachable by name (-fnames) are called',
                        'values crossing as char const * contain no embedded NUL (c01_embedded_nul_refuted shows why this is needed)',
                        'the driver maps a database wrapper to the declared function by scoped name and parameter types; an entry it cannot map is reported as a correspondence break']
